@@ -675,7 +675,10 @@ def _between_cfg (fn, ds, us):
       g = CFG(fn); ent = (fn, g, sum(1 for _ in ast.walk(fn))); _CFG_CACHE.clear(); _CFG_CACHE[key] = ent
     g = ent[1]
     dn = [n for n in g.nodes if n.ast is ds]
-    un = [n for n in g.nodes if n.ast is us or (n.stmt is us and n.kind in ('cond', 'stmt', 'for'))]
+    if isinstance(us, (ast.For, ast.AsyncFor)):
+      un = [n for n in g.nodes if n.stmt is us and n.label == 'for-iter']      # the iterable is evaluated once, before the loop
+    else:
+      un = [n for n in g.nodes if n.ast is us or (n.stmt is us and n.kind in ('cond', 'stmt'))]
     if not dn or not un: return None
     dn = dn[0]
     fwd = g.reachable(dn, avoid=[dn])
